@@ -91,7 +91,7 @@ def _build_config(case, spec):
 def run_log(case):
     out = Outcome()
     spec = make_spec(case)
-    net = Net(needs_resending=False)
+    net = Net(needs_resending=False, delays=case.get('delays', []))
     v2 = case['version'] >= 4
     with SimEnv(spec, net, case.get('schedule'), horizon=200.0) as env:
         s = env.s
@@ -135,6 +135,13 @@ def run_log(case):
             out.fail('log:rejected-valid', desc)
             return out
         if not accepted:
+            # a rejected configuration stays rejected when it is offered again
+            try:
+                cf.log.add_config(lc)
+                out.fail('log:rejected-then-accepted', '%s: the second add_config of the same rejected configuration was accepted with variables %r' % (
+                    desc, [v.name for v in lc.variables]))
+            except (KeyError, AttributeError):
+                pass
             s.sleep(0.5)
             if len(link.tx) != n_tx and not any(p == 15 for t, p, c, d, cl in link.tx[n_tx:]):
                 out.fail('log:add-config-transmits', desc)
@@ -354,7 +361,7 @@ def run_sync(case):
     return out
 
 
-_sched = st.fixed_dictionaries({'prefix': st.lists(st.integers(0, 3), max_size=20), 'seed': st.integers(0, 10 ** 6), 'rate': st.sampled_from([0.0, 0.0, 0.1, 0.4])})
+_sched = st.fixed_dictionaries({'prefix': st.lists(st.integers(0, 3), max_size=20), 'seed': st.integers(0, 10 ** 6), 'rate': st.sampled_from([0.0, 0.1, 0.4, 0.7])})
 _period = st.one_of(st.sampled_from([-10, 0, 5, 9.99, 10, 10.5, 20, 100, 1000, 2540, 2545, 2550, 2560, 5000]), st.integers(1, 3000), st.floats(0, 3000, allow_nan=False))
 
 
@@ -391,7 +398,8 @@ def log_case(draw):
             if kind == 'mem':
                 vars_.append({'kind': 'mem', 'fetch': draw(st.sampled_from([1, 3, 7])), 'stored': draw(st.sampled_from([1, 3, 7])), 'address': draw(st.integers(0, 2 ** 32 - 1))})
             else:
-                vars_.append({'kind': 'toc', 'idx': draw(st.one_of(st.integers(0, ntoc - 1), st.integers(0, ntoc + 2))), 'fetch': draw(st.sampled_from([None, None, 1, 2, 3, 4, 5, 6, 7, 8]))})
+                vars_.append({'kind': 'toc', 'idx': draw(st.one_of(st.integers(0, ntoc - 1), st.integers(0, ntoc - 1), st.integers(ntoc, ntoc + 2))),
+                              'fetch': draw(st.sampled_from([None, None, None, 1, 2, 3, 4, 5, 6, 7, 8]))})
     hist = [{'op': 'start', 'gap': 0.2}]
     for _ in range(draw(st.integers(0, 6))):
         hist.append({'op': draw(st.sampled_from(['emit', 'emit', 'emit', 'stop', 'start', 'delete'])), 'seed': draw(st.integers(0, 200)),
@@ -399,7 +407,7 @@ def log_case(draw):
     period = draw(_period) if shape != 'split' else draw(st.sampled_from([10, 100, 2540]))
     return {'version': draw(st.sampled_from([10, 10, 4, 3])), 'toc_types': toc_types, 'vars': vars_, 'period_ms': period, 'history': hist,
             'ts0': draw(st.sampled_from([0, 1, 255, 256, 65535, 65536, 0xFFFFFE, 1000000])), 'readd': draw(st.sampled_from([False, False, True])),
-            'schedule': draw(_sched)}
+            'schedule': draw(_sched), 'delays': draw(st.sampled_from([[], [0.0], [0.0], [0.0, 0.001], [0.002]]))}
 
 
 sync_case = st.fixed_dictionaries({'vars': st.lists(st.integers(0, 4), min_size=1, max_size=4), 'n': st.integers(0, 8),
@@ -423,6 +431,6 @@ def directed_cases(tier):
 def subchecks(tier):
     return [
         Sub('directed', run_log, cases=directed_cases, distinct_by_construction=True),
-        Sub('configs', run_log, strategy=log_case(), examples={'quick': 260, 'thorough': 12000}),
+        Sub('configs', run_log, strategy=log_case(), examples={'quick': 900, 'thorough': 30000}),
         Sub('synclogger', run_sync, strategy=sync_case, examples={'quick': 80, 'thorough': 3000}),
     ]
